@@ -90,6 +90,7 @@ pub fn replay(prop: &str, file: &str) -> i32 {
         "C12" => serde_json::from_value::<Vec<crate::props_treasury::OwnStep>>(case_v.clone()).ok().map(|c| crate::props_treasury::check_own_case(&c, &mut scratch)),
         "C13" => serde_json::from_value::<crate::props_treasury::TCase>(case_v.clone()).ok().map(|c| crate::props_treasury::check_tcase(&c, &mut scratch)),
         "C08" => serde_json::from_value::<crate::props_c08::C08Case>(case_v.clone()).ok().map(|c| crate::props_c08::check_c08_case(&c, &mut scratch)),
+        "C17" => serde_json::from_value::<crate::props_c17::PageCase>(case_v.clone()).ok().map(|c| crate::props_c17::check_page_case(&c, &mut scratch)),
         "C10" => serde_json::from_value::<crate::props_c10::C10Case>(case_v.clone()).ok().map(|c| crate::props_c10::check_c10_case(&c, &mut scratch)),
         "C14" => serde_json::from_value::<crate::props_config::CfgCase>(case_v.clone()).ok().map(|c| crate::props_config::check_cfg_case(&c, &mut scratch)),
         "C04" => serde_json::from_value::<crate::props_pure::RateCase>(case_v.clone()).ok().map(|c| crate::props_pure::check_rate_case(&c).map(|_| ())),
